@@ -146,6 +146,9 @@ def judge_c03(t, ex, witness, extra):
     ff = _first_fault(ex)
     if ff[0] not in PRE:
         return
+    if ex.op[0] != "new" and models.spec_apply(ex.pre, _labels_pre(ex), ex.op, _nodemixin_of(ex))[0] == models.UNDEFINED:
+        t.c["undefined_vetoed_skipped"] += 1
+        return
     t.c["pre_hook_vetoes"] += 1
     t.c["veto:" + ff[0]] += 1
     pos = ex.faults[0]
@@ -163,13 +166,17 @@ def judge_c03(t, ex, witness, extra):
     known = extra.get("known", {}) if extra else {}
     if kf is not None and kf in known:
         m = models.AsIs(ex.pre, _labels_pre(ex), ex.raise_at, ex.persist)
-        m.apply(ex.op)
-        if m.state() == ex.post:
+        try:
+            m.apply(ex.op)
+            predicted = m.state()
+        except Exception:  # noqa - the transcription does not cover this call: no known finding can match
+            predicted = None
+        if predicted == ex.post:
             t.kf(kf, forest.case_of(ex, witness))
             return
         why = "veto by %s damaged the forest differently from known finding %s" % (ff[0], kf)
         c = forest.case_of(ex, witness, why)
-        c["asis_state"] = forest.fmt_state(m.state(), _labels_pre(ex))
+        c["asis_state"] = forest.fmt_state(predicted, _labels_pre(ex)) if predicted else None
         t.violation("C03: " + why, c)
         return
     why = "call vetoed by %s of %s changed the forest" % (ff[0], ff[1])
